@@ -16,7 +16,8 @@ open Zvbi.Hamm Zvbi.Gen Zvbi.Ttx.Spec
 theorem claims_split (m : Nat) (cT : List Page) : ∀ (pre : List Seg) (s : St) (x : Seg) (post : List Seg),
     Claims m cT s (pre ++ x :: post) →
     ∃ q rest pt, Fetched q x.t (s1Of (run s (stream pre)).1 x.t) x.hdr x.rows pt ∧ pt ≠ PT_CLOCK
-      ∧ ∀ f, OfMag m f → (∀ y ∈ post, Undist f y.t) → cT.find? f = (q :: rest).find? f := by
+      ∧ (∀ f, OfMag m f → (∀ y ∈ post, Undist f y.t) → cT.find? f = (q :: rest).find? f)
+      ∧ CarriesAux q ((run (run s (stream pre)).1 x.pkts).1.rp m).page := by
   intro pre
   induction pre with
   | nil =>
